@@ -251,5 +251,82 @@ theorem all_done_of_no_holds (s : State) (c : List Nat) (hh : s.holds = []) (hi 
     · have := h1.2.1
       simp [held, AL.contains, hh] at this
 
+
+/-! ### nothing outside the chain -/
+
+/-- whatever `s'` has more than `s` — flags, deliveries, queue entries — concerns members of `c` -/
+structure Only (c : List Nat) (s s' : State) : Prop where
+  dirty : ∀ a, a ∈ s'.dirty → a ∈ s.dirty ∨ a ∈ c
+  log : ∀ a, a ∈ s'.log → a ∈ s.log ∨ a ∈ c
+  pending : ∀ a, a ∈ s'.pending → a ∈ s.pending ∨ a ∈ c
+
+theorem Only.refl (c : List Nat) (s : State) : Only c s s := ⟨fun _ h => Or.inl h, fun _ h => Or.inl h, fun _ h => Or.inl h⟩
+
+theorem Only.trans {c : List Nat} {a b d : State} (h1 : Only c a b) (h2 : Only c b d) : Only c a d :=
+  ⟨fun x h => (h2.dirty x h).elim (h1.dirty x) Or.inr, fun x h => (h2.log x h).elim (h1.log x) Or.inr,
+   fun x h => (h2.pending x h).elim (h1.pending x) Or.inr⟩
+
+theorem Only.mono {c c' : List Nat} {a b : State} (h : Only c a b) (hs : ∀ x, x ∈ c → x ∈ c') : Only c' a b :=
+  ⟨fun x hx => (h.dirty x hx).imp id (hs x), fun x hx => (h.log x hx).imp id (hs x), fun x hx => (h.pending x hx).imp id (hs x)⟩
+
+theorem only_setFlag (s : State) (x : Nat) : Only [x] s (setFlag s x) := by
+  unfold setFlag
+  split
+  · exact Only.refl _ s
+  · refine ⟨fun a h => ?_, fun _ h => Or.inl h, fun _ h => Or.inl h⟩
+    simp only [List.mem_append, List.mem_singleton] at h
+    rcases h with h | h
+    · exact Or.inl h
+    · exact Or.inr (by simp [h])
+
+theorem only_announce (s : State) (c : List Nat) : Only c s (announce s c) := by
+  induction c generalizing s with
+  | nil => exact Only.refl _ s
+  | cons x rest ih =>
+    unfold announce
+    split
+    · exact Only.refl _ s
+    · split
+      · split
+        · exact Only.refl _ s
+        · refine ⟨fun _ h => Or.inl h, fun _ h => Or.inl h, fun a h => ?_⟩
+          simp only [List.mem_append, List.mem_singleton] at h
+          rcases h with h | h
+          · exact Or.inl h
+          · exact Or.inr (by simp [h])
+      · have h1 : Only (x :: rest) s { s with log := s.log ++ [x] } := by
+          refine ⟨fun _ h => Or.inl h, fun a h => ?_, fun _ h => Or.inl h⟩
+          simp only [List.mem_append, List.mem_singleton] at h
+          rcases h with h | h
+          · exact Or.inl h
+          · exact Or.inr (by simp [h])
+        cases rest with
+        | nil => exact h1
+        | cons p r =>
+          have h2 : Only (x :: p :: r) { s with log := s.log ++ [x] } (setFlag { s with log := s.log ++ [x] } p) :=
+            (only_setFlag _ p).mono (fun y hy => by simp only [List.mem_singleton] at hy; simp [hy])
+          have h3 : Only (x :: p :: r) (setFlag { s with log := s.log ++ [x] } p)
+              (announce (setFlag { s with log := s.log ++ [x] } p) (p :: r)) :=
+            (ih _).mono (fun y hy => List.mem_cons_of_mem x hy)
+          exact (h1.trans h2).trans h3
+
+theorem only_touch (s : State) (x : Nat) (rest : List Nat) : Only (x :: rest) s (touch s x rest) := by
+  unfold touch
+  exact ((only_setFlag s x).mono (fun y hy => by simp only [List.mem_singleton] at hy; simp [hy])).trans (only_announce _ _)
+
+theorem only_release (s : State) (x : Nat) (rest : List Nat) : Only (x :: rest) s (release s x rest) := by
+  unfold release
+  split
+  · exact Only.refl _ s
+  · split
+    · dsimp only
+      split
+      · refine Only.trans (b := { { s with holds := AL.erase s.holds x } with
+            pending := s.pending.filter (· ≠ x) }) ?_ (only_announce _ _)
+        refine ⟨fun _ h => Or.inl h, fun _ h => Or.inl h, fun a h => Or.inl ?_⟩
+        exact (List.mem_filter.mp h).1
+      · exact ⟨fun _ h => Or.inl h, fun _ h => Or.inl h, fun _ h => Or.inl h⟩
+    · exact ⟨fun _ h => Or.inl h, fun _ h => Or.inl h, fun _ h => Or.inl h⟩
+
 end Dirty
 end DefconModel
